@@ -146,8 +146,7 @@ def runFuel : Nat := 200000
 def command (m : Mach) (c : String) : Option (String × Mach) :=
   let fin (r : R Unit) : Option (String × Mach) :=
     match r with
-    | (.panic s, m') => if s.startsWith "model:" then none else some ("panic", m')
-    | (o, m') => some (outcomeStr o, m')
+    | (o, m') => if isModelGap o then none else some (outcomeStr o, m')
   match c with
   | "n" => fin (m.next nativeProg)
   | "r" => fin m.rnext
